@@ -22,7 +22,7 @@ def gen(rng: random.Random, tier: str):
         ops = []; cur = L
         alts = [v1] + [sorted(rng.sample(universe, rng.randint(1, len(universe)))) for _ in range(2)]      # a small pool, so the same alternate vocabulary recurs within a history
         for _k in range(rng.randint(1, 6)):
-            kind = rng.choice(["ids", "numbers", "numbers", "getitem", "withvocab", "fields", "len", "ranks", "ranks", "copyids", "copynums", "copyboth", "copyidsvocab", "dropfield", "setfield", "setfield", "convert", "convert"])
+            kind = rng.choice(["ids", "numbers", "numbers", "getitem", "withvocab", "fields", "len", "ranks", "ranks", "copyids", "copynums", "copyboth", "copyidsvocab", "dropfield", "setfield", "setfield", "convert", "convert", "setnested"])
             if kind == "convert": ops.append({"op": "convert", "via": rng.choice(["arrow", "frame", "pickle", "torch", "arrow-numbers"])}); continue
             if kind == "numbers":
                 alt = rng.choice([None] + alts)
@@ -52,6 +52,9 @@ def gen(rng: random.Random, tier: str):
                 vals = [rng.randint(-5, 5) for _ in range(cur if rng.random() < 0.8 else rng.randint(0, 5))]
                 if nm == "f3" and rng.random() < 0.35: vals = [-5] * len(vals)          # NaN for every item
                 ops.append({"op": "setfield", "name": nm, "vals": vals})
+            elif kind == "setnested":
+                # a field given as a nested plain sequence (two values per item): the right outer length, the wrong dimensionality
+                ops.append({"op": "setnested", "name": rng.choice(["f1", "f2"]), "vals": [rng.randint(-5, 5) for _ in range(cur)], "as": rng.choice(["list", "tuple", "list-of-arrays"])})
             else: ops.append({"op": kind})
         if rng.random() < 0.12:
             # directed: the same alternate vocabulary asked of a list and then of a copy whose identifiers / numbers were replaced
@@ -134,6 +137,13 @@ def run(case: dict, lean: Lean) -> Outcome:
                 mops.append(dict(op))
                 arr = np.array([np.nan if v == -5 else float(v) for v in op["vals"]], dtype="f8") if op["name"] == "f3" else np.array(op["vals"], dtype="i8")
                 cur = ItemList(cur, **{op["name"]: arr}); real.append("ok")
+            elif k == "setnested":
+                # for the model a field has exactly one value per item: the 2n values of the nested sequence are not one per item (n ≥ 1)
+                nv = (list(op["vals"]) + [0] * len(cur))[:len(cur)]          # one row per item of the list as it is now
+                mops.append({"op": "setfield", "name": op["name"], "vals": [x for v in nv for x in (v, v + 1)]})
+                rows = [[v, v + 1] for v in nv]
+                nested = rows if op["as"] == "list" else tuple(tuple(r) for r in rows) if op["as"] == "tuple" else [np.array(r, dtype="i8") for r in rows]
+                cur = ItemList(cur, **{op["name"]: nested}); real.append("ok")
             else: mops.append({"op": "len"}); real.append(len(cur))
         except Exception as e:          # an exception of the implementation is an outcome of the case
             real.append({"err": _errtag(e)})
